@@ -165,19 +165,24 @@ def run_fields(spec):
     oms = np.sort(rng.normal(size=spec["nom"]))
     worst = 0.0
     res = {}
+    # a caller may keep one (24, 4) work array per object and refill it for the next band: first another field, then the one asserted below
+    vals_first = {k: float(x) for k, x in zip(vals, rng_from(spec["key"], 3).normal(size=len(vals)))}
+    bufC, bufP = np.empty((24, 4)), np.empty((24, 4))
     for value in "IJ":
-        tw = np.array([[vals[tuple(int(y) for y in v)] for v in t] for t in tmC.tetrahedra])
-        tmC.set_tetrahedra_omegas(tw)
-        tmC.run(oms, value=value)
-        x = np.array(tmC.get_integration_weight())
-        tw = np.array([[vals[tuple(int(y) for y in v)] for v in t] for t in tmP.tetrahedra])
-        tmP.set_tetrahedra_omegas(tw)
-        tmP.run(oms, value=value)
-        y = np.array(tmP.get_integration_weight())
-        e = np.abs(x - y).max()
-        worst = max(worst, e)
-        if e > 1e-10:
-            return Out(ok=False, msg="C and Py tetrahedron %s weights differ on a consistent field: %.3e" % (value, e))
+        for field in (vals_first, vals):
+            bufC[...] = np.array([[field[tuple(int(y) for y in v)] for v in t] for t in tmC.tetrahedra])
+            tmC.set_tetrahedra_omegas(bufC)
+            tmC.run(oms, value=value)
+            x = np.array(tmC.get_integration_weight())
+            bufP[...] = np.array([[field[tuple(int(y) for y in v)] for v in t] for t in tmP.tetrahedra])
+            tmP.set_tetrahedra_omegas(bufP)
+            tmP.run(oms, value=value)
+            y = np.array(tmP.get_integration_weight())
+            e = np.abs(x - y).max()
+            worst = max(worst, e)
+            if e > 1e-10:
+                return Out(ok=False, msg="C and Py tetrahedron %s weights differ on a consistent field (work array %s): %.3e"
+                           % (value, "refilled in place" if field is vals else "first use", e))
         res[value] = x
     J = res["J"]
     if J.min() < -1e-12 or J.max() > 1 + 1e-12 or (np.diff(J) < -1e-12).any():
@@ -258,6 +263,17 @@ def run_mesh(spec):
     y = td["total_dos"]
     if not np.isfinite(y).all() or y.min() < -1e-10:
         return Out(ok=False, msg="tetrahedron total DOS negative or not finite: min %r" % y.min())
+    # a window given in whole numbers: Python ints and the same values as floats are the same request
+    i0, i1 = int(np.floor(fmin)) - 1, int(np.ceil(fmax)) + 1
+    ph.run_total_dos(use_tetrahedron_method=True, freq_min=i0, freq_max=i1, freq_pitch=1)
+    yi = np.array(ph.get_total_dos_dict()["total_dos"], copy=True)
+    xi = np.array(ph.get_total_dos_dict()["frequency_points"], dtype=float)
+    ph.run_total_dos(use_tetrahedron_method=True, freq_min=float(i0), freq_max=float(i1), freq_pitch=1.0)
+    yf = ph.get_total_dos_dict()["total_dos"]
+    if len(yi) != len(yf) or np.abs(yi - yf).max() > 1e-12 * max(1.0, np.abs(yf).max()) or \
+            np.abs(xi - np.asarray(ph.get_total_dos_dict()["frequency_points"], dtype=float)).max() > 0:
+        return Out(ok=False, msg="tetrahedron DOS for the window (%d, %d, pitch 1) given as Python ints differs from the same window given as floats "
+                   "(max diff %.3e)" % (i0, i1, np.abs(yi - yf).max() if len(yi) == len(yf) else -1))
     if spec["ms"]:
         # projected DOS is documented to need the full mesh: continue on a mesh without symmetry reduction
         ph.run_mesh(mesh, is_mesh_symmetry=False, with_eigenvectors=True, is_gamma_center=spec["gc"])
